@@ -44,7 +44,7 @@ def accounting_problem(L, data, obs):
     if o["kind"] == "value":
         consumed = L.width(o["type"]) if L.is_prim(o["type"]) else None
     elif o["kind"] == "exceeded":
-        consumed = o["size_max"] - o["size_already"]
+        consumed = max(0, o["size_max"] - o["size_already"])
     else:
         consumed = 0
     rem = o.get("remaining")
